@@ -4,5 +4,5 @@ CONSTANTS
   FaultSegs = 2
   Wide = TRUE
 SPECIFICATION Spec
-INVARIANTS MachineIsDeclarative FoldIsMachine MalformedRejected IndicesResolve LinesNonDecreasing LineIsSemiCount EmitCase
+INVARIANTS MachineIsDeclarative FoldIsMachine MalformedRejected IndicesResolve LinesNonDecreasing LineIsSemiCount ExactAgrees EmitCase
 CHECK_DEADLOCK FALSE
